@@ -385,6 +385,12 @@ package jparse
 //@ nonnil field jparse.SortNode.Expr jparse.SortTerm.Expr jparse.FunctionApplicationNode.LHS jparse.FunctionApplicationNode.RHS
 //@ nonnil field jparse.dotNode.lhs jparse.dotNode.rhs jparse.singletonArrayNode.lhs jparse.predicateNode.lhs jparse.predicateNode.rhs
 
+// Operator fields hold one of the declared operators (the zero value is not an operator).
+//@ fieldrange jparse.NumericOperatorNode.Type 1 5
+//@ fieldrange jparse.ComparisonOperatorNode.Type 1 7
+//@ fieldrange jparse.BooleanOperatorNode.Type 1 2
+//@ fieldrange jparse.SortTerm.Dir 1 3
+
 // optimize returns the (possibly replaced) node and no error, or no node and a typed error. It may rewrite
 // any node of its own subtree (assigns heap); a path it returns has at least one step.
 //@ func iface:Node.optimize
